@@ -233,3 +233,90 @@ class ComputeVariableIndices(Contract):
             ("components-per-name", FA([j], z3.Implies(z3.And(0 <= j, j < sp.n), z3.And(d.has(sp.name(j)), _is_selection(sp, d.get(sp.name(j)), j, z3.IntVal(0)))),
                                               patterns=[sp.name(j)])),
         ]
+
+
+# ============================================================================ centered differences: the perturbation matrix
+from contracts.c16_derivatives import el, idx_ok  # noqa: E402
+
+CD = "gemseo.utils.derivatives.centered_differences.CenteredDifferences"
+schema(CD + "#nods", {"f_pointer": FP, "_step": TReal, "_normalize": TBool, "_parallel": TBool, "_design_space": TNone})
+
+
+@register
+class CenteredGeneratePerturbationsNoDesignSpace(Contract):
+    """Column k is x + step e_{I_k} and column n + k is x - step e_{I_k} (k < n = number of differentiated components): the points of
+    the centered quotient (F(x + h e) - F(x - h e)) / (2 h), exact on quadratics (OrderOfAccuracyLemmas)."""
+
+    targets = (CD + "._generate_perturbations",)
+    prop = ("C16",)
+    self_schema = CD + "#nods"
+    numpy = "precise"
+    params = {"input_values": F1, "input_indices": TList(TInt), "step": TReal}
+    returns = TTuple(F2, TReal)
+
+    def requires(self, c):
+        return idx_ok(c.old.input_indices, ln(c.old.input_values))
+
+    def ensures(self, c):
+        x, idx, h = c.old.input_values, c.old.input_indices, c.old.step
+        P, s = c.result_value
+        Pv = C.View(c._new_heap, P, c.st)
+        i, k = z3.Int("i!gp"), z3.Int("k!gp")
+        rng = z3.And(0 <= i, i < ln(x), 0 <= k, k < idx.n)
+        return [
+            ("shape", z3.And(ln(Pv, 0) == ln(x), ln(Pv, 1) == 2 * idx.n)),
+            ("forward-columns", z3.ForAll([i, k], z3.Implies(rng, el(Pv, i, k) == el(x, i) + z3.If(i == idx.elems[k], h, z3.RealVal(0))))),
+            ("backward-columns", z3.ForAll([i, k], z3.Implies(rng, el(Pv, i, idx.n + k) == el(x, i) - z3.If(i == idx.elems[k], h, z3.RealVal(0))))),
+            ("step-returned", s.term == h),
+        ]
+
+
+# ============================================================================ centered differences: the quotients
+np_norm = z3.Function("np_norm_f1", F1.sort(), z3.RealSort())  # numpy.linalg.norm of a vector (npmodel: uninterpreted, >= 0)
+
+
+def _col(P, k):
+    i = z3.Int("i!np0")
+    return F1.dt.mk(P.obj.shape[0], z3.Lambda([i], z3.Select(P.obj.elems, i, k)))
+
+
+def _diff(P, k, k2):
+    """The vector P[:, k] - P[:, k2]."""
+    i = z3.Int("i!np0")
+    return F1.dt.mk(P.obj.shape[0], z3.Lambda([i], z3.Select(P.obj.elems, i, k) - z3.Select(P.obj.elems, i, k2)))
+
+
+def _half(P):
+    """int(n_columns / 2)"""
+    return ln(P, 1) / 2  # integer division: the number of columns is non-negative
+
+
+@register
+class CenteredComputeGrad(Contract):
+    """gradient[k] = (F(P[:, k]) - F(P[:, n + k])) / ||P[:, k] - P[:, n + k]|| for the n = int(n_columns / 2) pairs of columns
+    (forward point k, backward point n + k of the perturbation matrix)."""
+
+    targets = (CD + "._compute_grad",)
+    prop = ("C16",)
+    self_schema = CD + "#nods"
+    numpy = "precise"
+    c16 = True
+    params = {"input_values": F1, "input_perturbations": F2, "step": TReal}
+    returns = TList(F1)
+
+    fun_output_dim = z3.Int("m_out")  # see the precondition output-dimension-is-fixed
+
+    def requires(self, c):
+        return [_fixed_output_dimension()]
+
+    def ensures(self, c):
+        P = c.old.input_perturbations
+        g = c.result
+        n = _half(P)
+        j, i = z3.Int("j!cg"), z3.Int("i!cg")
+        fp, fm = Ffun(_col(P, j)), Ffun(_col(P, n + j))
+        m = z3.Int("m_out")
+        return [("one-row-per-pair-of-perturbations", g.n == n),
+                ("output-dimension", z3.ForAll([j], z3.Implies(z3.And(0 <= j, j < n), F1.dim(g.elems[j]) == m))),
+                ("centered-quotients", z3.ForAll([j, i], z3.Implies(z3.And(0 <= j, j < n, 0 <= i, i < m),
+                                                                      F1.els(g.elems[j])[i] == (F1.els(fp)[i] - F1.els(fm)[i]) / np_norm(_diff(P, j, n + j)))))]
